@@ -734,7 +734,7 @@ fn main() {
     }
 
     // F. random rounds on top
-    let rounds = ctx.scale(40, 12000, 150000);
+    let rounds = ctx.scale(40, 30000, 200000);
     let nmax = ctx.scale(130, 6000, 40000);
     for r in 0..rounds {
         let mut g = ctx.rng(r as u64);
